@@ -103,6 +103,10 @@ contract(
         "len(self.nested_samples) == self.iteration + self.nlive)",
         "implies(not old(self.finalised) and not self.finalised, "
         "len(self.nested_samples) == self.iteration)",
+        # ... and reports the running estimator of exactly those samples
+        # (the trapezoidal refinement is part of finalise)
+        "implies(not old(self.finalised) and not self.finalised and "
+        "not self.prior_sampling, not self.state.ghost_refined)",
         "implies(not old(self.finalised), "
         "sorted_by(self.nested_samples, 'logL'))",
         "implies(not old(self.finalised), len(self.state.logLs) == "
